@@ -2,6 +2,7 @@
 
 pub mod model;
 pub mod prelude;
+pub mod scale;
 pub mod schedule;
 pub mod spec;
 
@@ -182,16 +183,55 @@ pub fn request_wire(id: u8, seal: Seal, shape: u8) -> Vec<u8> {
     b
 }
 
+/// kind 9: not a STUN message at all but application data handed to `send_data`
+pub const DATA_KIND: u8 = 9;
+pub const DATA_PAYLOAD: &[u8] = b"\x00\x01\x00\x08vcheck application data\xff";
+
 pub fn other_wire(kind: u8) -> Vec<u8> {
+    if kind == DATA_KIND {
+        return DATA_PAYLOAD.to_vec();
+    }
     let mut b = wire::encode_header(kind, 1, tid(3) ^ 0x5555, 0);
     wire::append_raw(&mut b, 0x8022, b"oth");
     b
 }
 
 /// Reference-built response / incoming message bytes.
+/// Response flavours (the `class` of `Act::Resp`): 2 success and 3 error with a SOFTWARE attribute;
+/// 4 = 401 Unauthorized with REALM and NONCE (the long-term credential challenge), 5 = 438 Stale
+/// Nonce with REALM and NONCE, 6 = 300 Try Alternate with ALTERNATE-SERVER, 7 = success with
+/// XOR-MAPPED-ADDRESS, 8 = 420 Unknown Attribute with UNKNOWN-ATTRIBUTES.  What a response says
+/// never changes what the agent does with it.
+pub const RESP_FLAVOURS: [u8; 5] = [4, 5, 6, 7, 8];
 pub fn response_wire(id: u8, class: u8, auth: Auth) -> Vec<u8> {
-    let mut b = wire::encode_header(class, 1, tid(id), 0);
-    wire::append_raw(&mut b, 0x8022, b"srv");
+    let wire_class = if class == 2 || class == 7 { 2 } else { 3 };
+    let mut b = wire::encode_header(wire_class, 1, tid(id), 0);
+    let err = |b: &mut Vec<u8>, code: u16, reason: &str| {
+        let mut v = vec![0, 0, (code / 100) as u8, (code % 100) as u8];
+        v.extend_from_slice(reason.as_bytes());
+        wire::append_raw(b, 0x0009, &v);
+    };
+    match class {
+        4 | 5 => {
+            if class == 4 {
+                err(&mut b, 401, "Unauthorized");
+            } else {
+                err(&mut b, 438, "Stale Nonce");
+            }
+            wire::append_raw(&mut b, 0x0014, b"lt.realm");
+            wire::append_raw(&mut b, 0x0015, b"obMatJos2AAACf//499k954d6OL34oL9FSTvy64sA");
+        }
+        6 => {
+            err(&mut b, 300, "Try Alternate");
+            wire::append_raw(&mut b, 0x8023, &[0, 1, 0x0D, 0x96, 192, 0, 2, 7]);
+        }
+        7 => wire::append_raw(&mut b, 0x0020, &[0, 1, 0x21 ^ 0x12, 0x12 ^ 0x34, 0x21 ^ 10, 0x12, 0xA4, 0x42 ^ 9]),
+        8 => {
+            err(&mut b, 420, "Unknown Attribute");
+            wire::append_raw(&mut b, 0x000A, &[0xC0, 0x01, 0x00, 0x30]);
+        }
+        _ => wire::append_raw(&mut b, 0x8022, b"srv"),
+    }
     match auth {
         Auth::None => {}
         Auth::Sha1(k) => wire::append_mi(&mut b, &key_bytes(k)),
@@ -245,6 +285,30 @@ pub struct Post {
     pub remote_addr: Option<SocketAddr>,
     pub local_addr: SocketAddr,
     pub tcp: bool,
+}
+
+/// What a `Transmit` says, read through `data()` and the public fields, and once more after
+/// `into_owned()`; if the owned copy says anything else, its version is what gets compared with the
+/// reference (and fails there).
+fn sent_obs(t: Transmit<'_>, from_poll: bool) -> Obs {
+    let mut data = t.data().to_vec();
+    let (mut from, mut to, mut tcp) = (t.from, t.to, t.transport == TransportType::Tcp);
+    let o: Transmit<'static> = t.into_owned();
+    if o.data() != &data[..] || o.from != from || o.to != to || (o.transport == TransportType::Tcp) != tcp {
+        data = o.data().to_vec();
+        from = o.from;
+        to = o.to;
+        tcp = o.transport == TransportType::Tcp;
+    }
+    let again = Transmit::new_owned(o.data(), o.transport, o.from, o.to);
+    if again.data() != &data[..] {
+        data = again.data().to_vec();
+    }
+    if from_poll {
+        Obs::PollSend { data, from, to, tcp }
+    } else {
+        Obs::Sent { data, from, to, tcp }
+    }
 }
 
 pub struct Real {
@@ -330,9 +394,13 @@ impl Real {
                     b.add_fingerprint().unwrap();
                 }
                 match self.agent.send(b, peer(dest), now) {
-                    Ok(t) => Obs::Sent { data: t.data().to_vec(), from: t.from, to: t.to, tcp: t.transport == TransportType::Tcp },
+                    Ok(t) => sent_obs(t, false),
                     Err(e) => Obs::SendRefused(format!("{e:?}")),
                 }
+            }
+            Act::SendOther { kind, dest } if kind == DATA_KIND => {
+                let t = self.agent.send_data(DATA_PAYLOAD, peer(dest));
+                sent_obs(t, false)
             }
             Act::SendOther { kind, dest } => {
                 let sw = Software::new("oth").unwrap();
@@ -344,7 +412,7 @@ impl Real {
                 let mut b = Message::builder(MessageType::from_class_method(class, BINDING), (tid(3) ^ 0x5555).into());
                 b.add_attribute(&sw).unwrap();
                 match self.agent.send(b, peer(dest), now) {
-                    Ok(t) => Obs::Sent { data: t.data().to_vec(), from: t.from, to: t.to, tcp: t.transport == TransportType::Tcp },
+                    Ok(t) => sent_obs(t, false),
                     Err(e) => Obs::SendRefused(format!("{e:?}")),
                 }
             }
@@ -353,7 +421,7 @@ impl Real {
                 let r = self.agent.poll(now);
                 stun_proto::verif::set_iteration_choice(0);
                 match r {
-                    StunAgentPollRet::SendData(t) => Obs::PollSend { data: t.data().to_vec(), from: t.from, to: t.to, tcp: t.transport == TransportType::Tcp },
+                    StunAgentPollRet::SendData(t) => sent_obs(t, true),
                     StunAgentPollRet::TransactionTimedOut(t) => Obs::PollTimedOut(t.into()),
                     StunAgentPollRet::TransactionCancelled(t) => Obs::PollCancelled(t.into()),
                     StunAgentPollRet::WaitUntil(i) => Obs::PollWait(self.rel_ns(i)),
